@@ -91,6 +91,27 @@ def enumerate_cases(tier):
                                           "join": join, "sort": sort, "axis": "x"}
 
 
+    # ordering of the union: two inputs sorted in the same direction (or not), every way the first one may have come about (its history)
+    # x label kind x join x sort
+    hists = [{"mode": "none"}, {"mode": "warm"}, {"mode": "relabel", "init": "sorted"}, {"mode": "relabel", "init": "shuffled"}, {"mode": "transposed"},
+             {"mode": "fortran"}, {"mode": "copyof"}, {"mode": "slice", "front": [[99, -99], [77]], "back": [[55], []]}]
+    pairs = {"i": ([10, 20, 30], [5, 15, 25]), "f": ([0.5, 2.5, 4.5], [0.1, 2.5, 3.3]), "s": (["b", "d", "f"], ["a", "c", "e"])}
+    for kind, (la, lb) in pairs.items():
+        for direction in ("inc", "dec", "mixed"):
+            a_l = la[::-1] if direction == "dec" else la
+            b_l = lb[::-1] if direction in ("dec", "mixed") else lb
+            for h in hists:
+                if h["mode"] == "slice" and kind == "s":
+                    h = {"mode": "slice", "front": [["zq0", "zq1"], [77]], "back": [["zq2"], []]}
+                for join in ("outer", "inner"):
+                    for sort in (False, True):
+                        for first in (0, 1):
+                            sa = {"dims": ["x", "y"], "labels": [a_l, [1, 2]], "vk": "f", "base": 0, "hist": h}
+                            sb = {"dims": ["x"], "labels": [b_l], "vk": "f", "base": 40, "hist": {"mode": "warm"}}
+                            ins = [{"t": "a", "spec": sa}, {"t": "a", "spec": sb}]
+                            yield "union-order-x-history-grid", {"inputs": ins if first == 0 else ins[::-1], "join": join, "sort": sort, "axis": None}
+
+
 # ----------------------------------------------------------------------------------------------
 
 def _dims(inp):
